@@ -229,6 +229,64 @@ def work_ints(task):
     return ev
 
 
+# integers that come out of a file (operation codes, offsets, line numbers, tags, forms, symbol fields ...): whatever
+# they looked like before, cast to a radix domain they print with that radix' prefix and read back as the same number
+DW_INT_FILES = ["/repo/tests/bitcount.o", "/repo/tests/a1.out", "/repo/tests/y-mips.o", "/repo/tests/nontrivial-types.o"]
+DW_INT_PREFIXES = ["entry @AT_location elem label", "entry @AT_location elem offset", "entry @AT_location elem value", "entry attribute label",
+                   "entry attribute form", "entry label", "entry offset", "entry @AT_decl_line", "entry @AT_byte_size", "entry @AT_language",
+                   "symbol label", "symbol binding", "symbol size", "symbol address", "entry abbrev code", "entry @AT_low_pc", "unit offset"]
+
+
+def work_dw_ints(path):
+    import os
+    ev = Evidence()
+    drv = Driver(timeout=120)
+    try:
+        tok = "V%d" % drv.open(path, False)
+        for P in DW_INT_PREFIXES:
+            q = ('%s (pos < 60) ?(type == T_CONST) (|V| [V value] [V "%%d"] [V "%%x"] [V "%%o"] [V "%%b"] [V hex "%%s"] [V oct "%%s"] [V bin "%%s"] '
+                 '[[V hex, V oct, V bin] "%%s"] [[[V hex]] "%%s"])') % P
+            r = drv.run(q, tok, limit=100, steps=50000000)
+            if "res" not in r or "error" in r or "cerror" in r:
+                ev.inconc("prefix fails: " + P)
+                continue
+            for row in r["res"]:
+                cols = row[-10:]
+                v = int(cols[0]["e"][0]["v"])
+                texts = [bytes.fromhex(c["e"][0]["x"]).decode("latin-1") for c in cols[1:]]
+                ev.case(key=("dwint", os.path.basename(path), P, v), nontrivial=True)
+                ev.label("dwarf-integer")
+                bad = None
+                for txt, ed, what in zip(texts[:7], ["dec", "hex", "oct", "bin", "hex", "oct", "bin"], ["%d", "%x", "%o", "%b", 'hex "%s"', 'oct "%s"', 'bin "%s"']):
+                    if v == 0 and txt == "0":
+                        continue        # (known finding zero-in-radix-domain)
+                    try:
+                        pv, pd = parse_literal(txt)
+                    except ValueError:
+                        pv, pd = None, None
+                    if pv != v or pd != ed:
+                        bad = "%s %s of %d prints %r, which reads back as %r in domain %r (expected %s)" % (P, what, v, txt, pv, pd, ed)
+                        break
+                if not bad and v != 0:
+                    try:
+                        inner = [parse_literal(t.strip()) for t in texts[7].strip("[]").split(",")]
+                        inner2 = parse_literal(texts[8].strip("[]"))
+                    except ValueError:
+                        inner, inner2 = None, None
+                    if inner != [(v, "hex"), (v, "oct"), (v, "bin")] or inner2 != (v, "hex"):
+                        bad = "%s: [V hex, V oct, V bin] \"%%s\" of %d prints %r and [[V hex]] prints %r" % (P, v, texts[7], texts[8])
+                if bad:
+                    ev.violations.append({"property": PID, "query": q, "file": path, "reason": os.path.basename(path) + ": " + bad, "signature": "C20:dwint:" + P})
+                    break
+    except DriverCrash as e:
+        ev.violations.append({"property": PID, "file": path, "reason": "driver crashed: " + e.report[-2500:], "signature": "C20:dwint-crash:" + path})
+    except DriverTimeout:
+        ev.inconc("watchdog")
+    finally:
+        drv.kill()
+    return ev
+
+
 ALPHA = [b'"', b"\\", b"%", b"\0", b"\n", b"\t", b"\x01", b"\x7f", b"\x80", b"\xff", b"a", b"Z", b"0", b"7", b" ", b"x", b"s", b"(", b")", b"[", b"]", b",", b"'", b"\r", b"\x1b", b"\xc3\xa9"]
 
 
@@ -333,6 +391,7 @@ def main(tier, seed):
     n = 3000 if tier == "quick" else 100000
     per = max(50, n // 32)
     ev.merge(run_pool(work_ints, [(seed, s, min(per, n - s)) for s in range(0, n, per)]))
+    ev.merge(run_pool(work_dw_ints, DW_INT_FILES))
     nb = 96 if tier == "quick" else 3000
     per = max(3, nb // 32)
     ev.merge(run_pool(work_strings, [(seed, s, min(per, nb - s)) for s in range(0, nb, per)]))
@@ -342,6 +401,7 @@ def main(tier, seed):
                                "words of the vocabulary that the installed headers do not define are counted inconclusive"],
                   health={"constants enumerated": ev.labels.get("constant-word", 0) > 500,
                           "all radices": all(ev.labels.get("int:" + d, 0) > 50 for d in ("dec", "hex", "oct", "bin")),
+                          "integers read from files": ev.labels.get("dwarf-integer", 0) > 300,
                           "cli batches": ev.labels.get("cli-batch", 0) >= 32})
 
 
